@@ -15,6 +15,16 @@ FIRST_MISSED = {
     'C09-m1': 'missed by the first C09 check (placeholders never in both targets and FROM); caught after the binding-order stream was added',
     'C09-m2': 'missed by the first C09 check (histories used fresh cursors); caught after same-cursor histories with ==-equal parameters of different type were added',
     'C10-m2': 'missed by the first C10 check (cursors came from conn.cursor()); caught after histories over two live conn.execute() results were added',
+    'C02-m4': 'missed by the C02 check of round 1 (a GROUP BY key was never named twice); caught after duplicate GROUP BY references were added to the generator',
+    'C03-m4': 'missed by the C03 check of round 1 (aggregate variant always selected its grouping key); caught after the hidden-key aggregate + DISTINCT variant was added (the C02 check catches it too)',
+    'C07-m4': 'missed by the C07 check of round 1 (no attribute / subscript / placeholder targets); caught after the structured-and-placeholder naming stream on a Beancount connection was added',
+    'C08-m4': 'missed by the C08 check of round 1 (no outer ORDER BY with ties over an ordered subquery); caught after the inner-order-kept stream was added',
+    'C09-m4': 'missed by the C09 check of round 1 (histories only on user tables); caught after histories of OPEN/CLOSE/CLEAR, BALANCES, JOURNAL statements on one Beancount connection vs fresh connections were added',
+    'C11-m4': 'missed by the C11 check of round 1 (tables read once per connection); caught after sessions of qualified statements followed by re-reading every column were added',
+    'C12-m3': 'missed by the C12 check of round 1; caught after aggregates over Inventory columns of subquery/user tables, repeated execution and the input-mutated aliasing check were added',
+    'C12-m4': 'missed by the C12 check of round 1; caught after several aggregates over different same-typed subquery columns in one query were added',
+    'C13-m4': 'missed by the C13 check of round 1 (single-level statements); caught after nested IN / NOT IN subqueries with their own FROM qualifiers were added',
+    'C15-m3': 'missed by the C15 check of round 1 (no ORDER BY in pivot queries); caught after ORDER BY clauses before PIVOT BY were added to the generator',
     'C15-m2': 'missed by the first C15 check (only valid PIVOT BY references generated); caught after the invalid-reference stream was added (the C05 check also rejects it)',
 }
 rows = []
